@@ -198,9 +198,31 @@ func pkgInDir(pkgName, dir string) bool {
 	return currentPkg.Name == pkgName || currentPkg.Name+"_test" == pkgName
 }
 
+// isMoqGenerated reports whether the file starts with moq's generated-code
+// marker.
+func isMoqGenerated(file *ast.File) bool {
+	for _, group := range file.Comments {
+		if group.Pos() > file.Package {
+			break
+		}
+		for _, c := range group.List {
+			if c.Text == "// Code generated by moq; DO NOT EDIT." {
+				return true
+			}
+		}
+	}
+	return false
+}
+
 func parseImportsAliases(syntaxTree []*ast.File) map[string]string {
 	aliases := make(map[string]string)
 	for _, syntax := range syntaxTree {
+		// Aliases in a file moq generated earlier are moq's own choices, not
+		// the user's: harvesting them would make the output depend on
+		// whether a previous output is still in place.
+		if isMoqGenerated(syntax) {
+			continue
+		}
 		for _, imprt := range syntax.Imports {
 			if imprt.Name != nil && imprt.Name.Name != "." && imprt.Name.Name != "_" {
 				aliases[strings.Trim(imprt.Path.Value, `"`)] = imprt.Name.Name
